@@ -1,7 +1,10 @@
 
 namespace DistShape
 
-/-! C18: shape / argument contract of Distribution.sample & log_prob (distributions/base.py:22-120), core Lean only -/
+/-! C18, HISTORICAL: the design-time spike of the shape contract of Distribution.sample (distributions/base.py), core Lean only.
+    `asCoded` is the PRE-fix code (batches joined on dim 0 whatever the context; finding F7, repaired in /repo by commit
+    ea12a48); the counterexamples below document that defect.  The model of the CURRENT code, the one the driver runs and
+    Properties/C18.lean is about, is `Core/Dist.lean`. -/
 inductive Err | typeError | valueError | runtimeError deriving DecidableEq, Repr
 
 /-- the Python values that can arrive as `num_samples` / `batch_size` -/
